@@ -41,7 +41,7 @@ FILES = {  # file -> (weight, checks in the order they are tried)
  "pkg/reflectmath.go": (6, "C19 C05"),
  "pkg/JsonResource.go": (6, "C18 C20"),
  "model/GoDataAccessLayer.go": (6, "C04 C05 C14 C13"),
- "model/JsonDataAccessLayer.go": (3, "C04 C20 C05"),
+ "model/JsonDataAccessLayer.go": (3, "C04 C01 C20 C05"),
  "model/DataAccessLayer.go": (4, "C04 C05 C14 C13"),
  "builder/RuleBuilder.go": (3, "C17 C16 C20 C09"),
  "antlr/GruleParserV3Listener.go": (8, "C17 C18 C05 C20 C09"),
